@@ -922,10 +922,20 @@ func (e *enumerator) Every(upd func(key uint64, oldV *Container, exists bool) (n
 		nv, write := upd(i.k, i.v, true)
 		if write {
 			if nv == nil {
-				e.t.Delete(i.k)
-			} else {
-				e.q.d[e.i].v = nv
+				// Deleting shifts the remaining items of the page down, and
+				// may merge the page away and hand it back to the node pool
+				// (from where another tree can take it). Do not keep walking
+				// the old position: it would skip the item that moved into
+				// this slot, or read a recycled page. Reposition at the first
+				// key after the deleted one instead.
+				k := i.k
+				e.t.Delete(k)
+				f, _ := e.t.Seek(k)
+				*e = *f
+				f.Close()
+				continue
 			}
+			e.q.d[e.i].v = nv
 		}
 		// Any error returned would be stashed in e.err, and would come up
 		// on the next call.
